@@ -1397,6 +1397,16 @@ def payoff_last_point(ctx, block):
             ref = _terminal_payoff_ref(kind, call, K, cur, dt)
             ctx.tick(1, nontrivial=1 if (rounding == "noninteger" or below) else 0)
             if kind == "variance_swap":
+                # The contract (mean squared LOG-return) is defined on positive finite prices only.  A float32 path
+                # simulated over several hundred years (dt = 0.3, k ~ 2000) underflows to 0: reference and payoff
+                # are both NaN there and say nothing about the grid - such paths are counted, not compared.
+                good = torch.isfinite(ref) & (cur > 0).all(-1) & torch.isfinite(cur).all(-1)
+                if not bool(good.all()):
+                    ctx.add("paths_with_undefined_log_return_contract", int((~good).sum()))
+                    if tuple(pay.shape) == (3,):
+                        if not bool(good.any()):
+                            continue
+                        cur, pay, ref = cur[good], pay[good], ref[good]
                 # log-return r_t = log S_{t+1} - log S_t (or log of the ratio): |error| <= ~2*eps*max|log S| + eps*|r|;
                 # squared, averaged and divided by dt: 2*max|r|*that/dt
                 lr_ = (cur[:, 1:] / cur[:, :-1]).log().abs().max()
@@ -1405,7 +1415,7 @@ def payoff_last_point(ctx, block):
                 tol = 4 * eps * (ref.abs() + 1)
             else:
                 tol = 2 * eps * (ref.abs() + K)
-            if tuple(pay.shape) != (3,) or not bool(((pay - ref).abs() <= tol).all()):
+            if tuple(pay.shape) != tuple(ref.shape) or not bool(((pay - ref).abs() <= tol).all()):
                 earlier = [j for j in range(T - 1) if kind in ("european", "european_binary") and tuple(pay.shape) == (3,) and
                            bool(((pay - _terminal_payoff_ref(kind, call, K, cur[:, :j + 1], dt)).abs() <= tol).all())]
                 c = f"read_at_step_T{earlier[-1] - (T - 1):+d}" if earlier else "not_the_terminal_payoff"
